@@ -574,8 +574,26 @@ func VerifC15ElementReps() {
 		return map[string]any{"k": k}
 	}
 	ur := nd.Choice(3)
-	vu, eu := fEval("a | uniq | size", map[string]any{"a": []any{mkr(ur, k1), mkr(ur, k2), mkr(ur, k3), mkr(ur, k1)}})
+	vu, eu := fEval("a | uniq | size", map[string]any{"a": []any{mkr(ur, k1), mkr((ur+1)%3, k2), mkr((ur+2)%3, k3), mkr((ur+1)%3, k1)}})
 	nd.Assert(eu == nil && vu.(int) == distinct, "uniq-equal-records-are-duplicates")
+	// keyed sort_natural reads the key of every record representation
+	names := []string{"b", "A", "c"}
+	nrec := func(rep, i int) any {
+		switch rep {
+		case 1:
+			return yaml.MapSlice{{Key: "sk", Value: names[ks[i]+1]}, {Key: "id", Value: i}}
+		case 2:
+			return c15RepDrop{map[string]any{"sk": names[ks[i]+1], "id": i}}
+		case 3:
+			return map[any]any{"sk": names[ks[i]+1], "id": i}
+		case 4:
+			return map[string]any{"sk": c15RepDrop{names[ks[i]+1]}, "id": i}
+		}
+		return map[string]any{"sk": names[ks[i]+1], "id": i}
+	}
+	vn1, en1 := fEval("a | sort_natural: 'sk' | map: 'sk' | join: ','", map[string]any{"a": []any{nrec(0, 0), nrec(0, 1), nrec(0, 2)}})
+	vn2, en2 := fEval("a | sort_natural: 'sk' | map: 'sk' | join: ','", map[string]any{"a": []any{nrec(r0, 0), nrec((r0+2)%5, 1), nrec((r0+1)%5, 2)}})
+	nd.Assert(en1 == nil && en2 == nil && values.Equal(vn1, vn2), "sort-natural-key-in-every-representation")
 	// nils among the elements do not disturb the order of the others
 	v3, e3 := fEval("a | sort | compact | join: ','", map[string]any{"a": []any{3, nil, k1, 1, nil}})
 	v4, e4 := fEval("a | sort | join: ','", map[string]any{"a": []any{3, k1, 1}})
